@@ -700,7 +700,46 @@ def check_ctor(case, rec):
     rec.nontrivial(len(kw) >= 4 or "integral_scale" in kw)
 
 
+@st.composite
+def gen_fitfixed(draw, tier="quick"):
+    """Values handed to fit_variogram as fixed parameters are assignments like any other: they arrive as given, in any keyword order."""
+    cls = draw(st.sampled_from(["TPLGaussian", "TPLExponential", "TPLStable", "Gaussian", "Stable", "Matern"]))
+    names = ["var", "len_scale"] + (["hurst"] if cls.startswith("TPL") else []) + (["len_low"] if cls.startswith("TPL") and draw(st.booleans()) else [])
+    fixed = draw(st.lists(st.sampled_from(names), min_size=2, max_size=len(names), unique=True).filter(lambda l: "var" in l))
+    vals = {"var": draw(logfloat(0.3, 8.0)), "len_scale": draw(logfloat(2.0, 30.0)), "hurst": draw(st.floats(0.2, 0.9)), "len_low": draw(logfloat(0.1, 3.0))}
+    return {"cls": cls, "dim": draw(st.sampled_from([1, 2, 3])), "order": draw(st.permutations(fixed)), "vals": {k: float(vals[k]) for k in fixed}}
+
+
+def check_fitfixed(case, rec):
+    cls, dim = case["cls"], case["dim"]
+    tags = {"sub": "fit_fixed", "model": cls, "dim": dim}
+    rec.label(cls, "var_first" if case["order"][0] == "var" else "var_later")
+    x = np.linspace(1.0, 40.0, 12)
+    with quiet():
+        truth = getattr(gs, cls)(dim=dim, var=2.0, len_scale=10.0, nugget=0.3)
+        y = np.asarray(truth.variogram(x), dtype=float)
+        m = getattr(gs, cls)(dim=dim, var=1.0, len_scale=5.0, nugget=0.1)
+        kwf = {k: case["vals"][k] for k in case["order"]}  # keyword order as written by the caller
+        try:
+            m.fit_variogram(x, y, **kwf)
+        except RuntimeError:
+            rec.exclude("optimiser_gave_up")
+            return
+        except ValueError as exc:
+            raise Violation(f"{cls}.fit_variogram({kwf}) raised ValueError: {exc}", tags=dict(tags, kind="exception")) from exc
+    for k, v in case["vals"].items():
+        got = float(getattr(m, k))
+        require(abs(got - v) <= 1e-12 * max(abs(v), 1e-300),
+                f"{cls}(dim={dim}).fit_variogram(..., {', '.join(f'{a}={kwf[a]!r}' for a in kwf)}): {k} is {got!r} afterwards, given {v!r}",
+                dict(tags, kind="fixed_value_changed", par=k))
+    with quiet():
+        direct = getattr(gs, cls)(dim=dim, var=float(m.var), len_scale=float(m.len_scale), nugget=float(m.nugget), **{o: float(getattr(m, o)) for o in m.opt_arg})
+    require(bool(direct == m), f"model after the fit {m!r} != directly constructed {direct!r}", dict(tags, kind="neq_fresh"))
+    rec.nontrivial(True)
+
+
 SUBS = [
+    Sub("fit_fixed", gen_fitfixed, check_fitfixed, quick=200, thorough=4000, shards_quick=2, shards_thorough=2),
     Sub("ctor", gen_ctor, check_ctor, quick=1200, thorough=30000, shards_quick=4, shards_thorough=8),
     Sub("history", gen_history, check_history, quick=2400, thorough=40000, shards_quick=12, shards_thorough=16, nontrivial=_nontrivial),
 ]
